@@ -10,7 +10,8 @@ Inductive rcase :=
 (* resample(): per-field leaves before/after, observed weights reset flag, lml before/after
    as exact rationals of the float32 values, tolerance num/den *)
 | RRes (fields_in fields_out : list (list Z)) (weights_zero : bool)
-       (lml_before lml_after : Q) (diag_ok : bool).
+       (lml_before lml_after : Q) (diag_ok : bool)
+       (ws : list Z) (sys : option (Z * Z)).   (* current weights; scripted offset when systematic *)
 
 Fixpoint nats_eqb (a b : list nat) : bool :=
   match a, b with [] , [] => true | x :: a', y :: b' => Nat.eqb x y && nats_eqb a' b' | _, _ => false end.
@@ -47,8 +48,17 @@ Definition check_rcase (c : rcase) : bool * bool * bool :=
   match c with
   | RSys ws N a b idx =>
       (nats_eqb (sys_indices ws N a b) idx, floor_ok ws N idx, floor_ok ws N idx)
-  | RRes fin fout wz l0 l1 dok =>
-      let ok := faithful fin fout && wz && qclose l0 l1 && dok in (ok, ok, ok)
+  | RRes fin fout wz l0 l1 dok ws sys =>
+      let src := match fin, fout with
+                 | f0 :: _, g0 :: _ => map (fun v => match find_index v f0 0 with Some i => i | None => length f0 end) g0
+                 | _, _ => []
+                 end in
+      let follows :=
+        match sys with
+        | Some (a, b) => nats_eqb src (sys_indices ws (length ws) a b)
+        | None => forallb (fun i => 0 <? nth i ws 0) src     (* never copy a zero-weight particle *)
+        end in
+      let ok := faithful fin fout && wz && qclose l0 l1 && dok && follows in (ok, ok, ok)
   end.
 
 Definition rreport (cs : list rcase) : list (nat * bool * bool * bool) :=
